@@ -58,6 +58,40 @@ def model_level_cases():
     return n, bad
 
 
+def steady_state_excluded_cases():
+    """Concrete: with the initial steady-state search switched on, the variables the user EXCLUDES from the search (a user-defined time axis built
+    from a lag, which never settles) keep their stated initial conditions; horizon, exogenous series and lags are as without the search."""
+    from sfc_models.equation_solver import EquationSolver, NoEquilibriumError
+    bad = []
+    n = 0
+    for T, t0, step, horizon in itertools.product((3, 12), (1950., 0.1 + 0.2, -7.25), (0.25, 1.0), (5, 60)):
+        block = ("x = 0.5*lag_x + g\nlag_x = x(k-1)\nt = lag_t + %r\nlag_t = t(k-1)\nt(0) = %r\nlag_t(0) = %r\nexogenous\ng = [10.]*5 + [12.]*20\ntax = 0.2\nMaxTime = %d"
+                 % (step, t0, t0 - step, T))
+        for excluded in (['t', 'lag_t'], ['lag_t', 't', 'x']):
+            es = EquationSolver(block)
+            es.ParameterSolveInitialSteadyState = True
+            es.ParameterInitialSteadyStateMaxTime = horizon
+            es.ParameterInitialSteadyStateExcludedVariables = list(excluded)
+            n += 1
+            try:
+                es.SolveEquation()
+            except NoEquilibriumError:
+                continue                # the search refuses (too short a search horizon for the stock to settle): not a successful solve
+            except Exception as e:
+                bad.append((T, t0, step, horizon, tuple(excluded), 'raises %r' % (e,)))
+                continue
+            ts = es.TimeSeries
+            want_t = [t0]
+            for i in range(T):
+                want_t.append(want_t[-1] + step)
+            ok = all(len(ts[v]) == T + 1 for v in ts) and list(ts['g']) == ([10.] * 5 + [12.] * 20)[0:T + 1] and list(ts['tax']) == [0.2] * (T + 1) \
+                and ts['t'][0] == t0 and ts['lag_t'][0] == t0 - step and list(ts['t']) == want_t \
+                and all(ts['lag_t'][k] == ts['t'][k - 1] and ts['lag_x'][k] == ts['x'][k - 1] for k in range(1, T + 1))
+            if not ok:
+                bad.append((T, t0, step, horizon, tuple(excluded), 't = %r, lag_t(0) = %r' % (list(ts['t'])[:3], ts['lag_t'][0])))
+    return n, bad
+
+
 # ---- E2: exogenous values symbolic through the unmodified solver, any block shape, reduction on/off -----------------------------
 
 E2_BLOCKS = {
@@ -206,7 +240,7 @@ def run(tier, seed):
     chk.bounds['E2 part'] = 'block shapes %r x T 0..2(3) x exogenous length T..T+2 x initial value x reduction on/off; exogenous VALUES symbolic reals in [-100,100]' % (sorted(E2_BLOCKS),)
     chk.assumptions = ['symbolic values enter through names injected into the solver module eval globals (G = SYM_G, x(0) = SYM_IC): code under test unmodified',
                        'blocks are loop-light (alias/affine in one variable) so that CrossHair exhausts the iteration']
-    chk.outside = ['steady-state initialisation on (C15)', 'Model-level value clause with symbolic values: AddExogenous/AddInitialCondition turn values '
+    chk.outside = ['steady-state initialisation on, for the variables the search covers (C15; the search replaces their stated initial conditions, pinned by the test-suite) - the variables the user excludes from the search are covered here', 'Model-level value clause with symbolic values: AddExogenous/AddInitialCondition turn values '
                    'into text (repr/str(float)), which realises them; checked by a concrete enumeration instead (reported separately)',
                    'horizons above 3']
     from vf import selfcheck
@@ -233,6 +267,14 @@ def run(tier, seed):
             chk.violation('e2:%s:%s' % (o['case'][0], o['viol']['why'][:50]), what + ': ' + o['viol']['why'], REPLAY_E2 % dict(case=o['case'], g=o['viol']['g']))
         elif len([s_ for s_ in chk.samples if 'E2' in str(s_)]) < 4:
             chk.sample({'harness': what, 'paths': o['paths'], 'outcomes': o['outcomes'], 'verdict': 'verbatim clauses hold on every path'}, cap=40)
+    n2, bad2 = steady_state_excluded_cases()
+    chk.counters['steady_state_excluded_cases'] = n2
+    chk.obligations += n2
+    chk.discharged += n2 - len(bad2)
+    for b in bad2:
+        chk.violation('steady-state-excluded:%r' % (b[:5],), 'steady-state search on, excluded variables %r with stated initial conditions (horizon %d, t(0) = %r, step %r, search horizon %d): %s' % (b[4], b[0], b[1], b[2], b[3], b[5]),
+                      'import sys\nfrom vf.props.c10 import steady_state_excluded_cases\nn, bad = steady_state_excluded_cases()\nhit = [b for b in bad if b[:5] == %r]\nprint(hit)\nsys.exit(1 if hit else 0)\n' % (b[:5],))
+    chk.bounds['steady-state search and excluded variables'] = '%d concrete cases: a user-defined time axis built from a lag, excluded from the search, keeps its stated initial condition' % n2
     n, bad = model_level_cases()
     chk.counters['model_level_concrete_cases'] = n
     chk.obligations += n
